@@ -191,7 +191,7 @@ def load_known(pid):
     path = os.path.join(VERIF, 'known_findings.json')
     if not os.path.exists(path):
         return []
-    return [k for k in json.load(open(path)).get('findings', []) if k.get('property') == pid and k.get('status') == 'known']
+    return [k for k in json.load(open(path)).get('findings', []) if pid in k.get('properties', []) and k.get('status') == 'known']
 
 
 def write_replay(pid, case, fail, extra=None):
